@@ -26,11 +26,15 @@ CLR = ['clear_props', 'clear_all_props', 'clear']
 MSH = ['mesh_new', 'mesh_copy', 'mesh_assign', 'mesh_destroy']
 GROW = ['add_vertex', 'add_edge']
 KDEL = ['delete_vertex', 'delete_edge', 'delete_face', 'delete_cell', 'collect_garbage']
-ALL14 = REG + HND + CLR + MSH + GROW + ['write']
-LIFE = HND + CLR + ['mesh_copy', 'mesh_assign', 'mesh_destroy', 'add_vertex', 'write', 'set_persistent', 'set_shared']
+ALL14 = REG + HND + CLR + MSH + GROW + ['write', 'pos_handle']
+LIFE = HND + CLR + ['mesh_copy', 'mesh_assign', 'mesh_destroy', 'add_vertex', 'write', 'set_persistent', 'set_shared', 'pos_handle']
 COPY = ['mesh_copy', 'mesh_assign']
 MUT13 = GROW + KDEL + ['set_vertex', 'write', 'clear', 'clear_props', 'request', 'create_persistent', 'set_persistent',
-                       'set_shared', 'set_name', 'h_drop', 'h_copy', 'mesh_destroy', 'enable_deferred']
+                       'set_shared', 'set_name', 'h_drop', 'h_copy', 'mesh_destroy', 'enable_deferred', 'pos_handle']
+
+MUT13B = ['add_vertex', 'delete_vertex', 'collect_garbage', 'set_vertex', 'write', 'clear', 'h_drop', 'mesh_destroy', 'set_persistent']
+
+MUT13C = ['add_vertex', 'delete_vertex', 'set_vertex', 'write', 'clear', 'mesh_destroy']
 
 BASE = dict(NM=2, NS=7, NH=3, Kinds=['V'], Types=['int', 'bool'], Names=['', 'a'], MTypes=['poly'],
             MaxV=2, MaxE=1, Overwrite=False)
@@ -55,7 +59,7 @@ CHECKS = {
             cfg(name='registry', Depth=3, SeedIds=[0, 1, 2, 3, 6], Names=['', 'a', 'b'], Ops1=ALL14, Ops2=ALL14, OpsN=ALL14 + ['teardown']),
             cfg(name='kinds', Depth=3, SeedIds=[0, 5], Kinds=['V', 'HE', 'M'], Types=['int', 'bool'], Names=['', 'a'],
                 Ops1=ALL14, Ops2=ALL14, OpsN=ALL14 + ['teardown']),
-            cfg(name='lifetimes', Depth=6, SeedIds=[1, 2, 3, 4], Kinds=['V'], Types=['int'], Names=['a'], Overwrite=True, NM=3, NS=9,
+            cfg(name='lifetimes', Depth=5, SeedIds=[1, 2, 3, 4], Kinds=['V'], Types=['int'], Names=['a'], Overwrite=True, NM=3, NS=9,
                 Ops1=LIFE, Ops2=LIFE, OpsN=['h_drop', 'mesh_destroy', 'clear', 'h_copy', 'mesh_assign', 'mesh_copy', 'teardown']),
         ],
         sim=dict(ops=ALL14, SeedIds=[0, 1, 2, 3, 4, 5, 6], NM=3, NS=10, NH=4, Kinds=['V', 'HE', 'M'], Types=['int', 'bool'],
@@ -64,25 +68,30 @@ CHECKS = {
     'C13': dict(
         props=['C13'],
         quick=[
-            # copy / assign (all pairs, self assignment), then mutation histories on either side
+            # copy / assign (all pairs of up to three meshes incl. mixed kernel types and self assignment),
+            # then every mutation of either side, then a second, narrower mutation
             cfg(name='copy-then-mutate', NM=3, NS=12, NH=4, Depth=3, SeedIds=[10, 11, 12, 13, 14, 15, 16], Kinds=['V'], Types=['int'], Names=['a'],
-                MTypes=['poly', 'tet', 'hex'], MaxV=5, MaxE=7, Ops1=COPY, Ops2=MUT13, OpsN=MUT13),
+                MTypes=['poly', 'tet', 'hex'], MaxV=5, MaxE=7, Ops1=COPY, Ops2=MUT13, OpsN=MUT13C),
             # chains of copies
             cfg(name='chains', NM=3, NS=12, NH=4, Depth=3, SeedIds=[10, 11, 13, 14], Kinds=['V'], Types=['int'], Names=['a'],
-                MTypes=['poly'], MaxV=5, MaxE=7, Ops1=COPY + ['mesh_new'], Ops2=COPY, OpsN=['set_vertex', 'add_vertex', 'write', 'delete_vertex', 'clear']),
+                MTypes=['poly'], MaxV=5, MaxE=7, Ops1=COPY + ['mesh_new'], Ops2=COPY, OpsN=MUT13B),
             # the position property made persistent before copying
             cfg(name='persistent-positions', NM=3, NS=12, NH=4, Depth=3, SeedIds=[10, 12], Kinds=['V'], Types=['int'], Names=['a'],
-                MTypes=['poly'], MaxV=5, MaxE=7, Ops1=['persist_pos'], Ops2=COPY, OpsN=['set_vertex', 'add_vertex', 'mesh_assign', 'mesh_destroy']),
+                MTypes=['poly'], MaxV=5, MaxE=7, Ops1=['persist_pos', 'pos_handle'], Ops2=COPY + ['persist_pos', 'set_shared', 'set_name'],
+                OpsN=COPY + ['set_vertex', 'add_vertex', 'mesh_destroy', 'persist_pos', 'write']),
         ],
         thorough=[
             cfg(name='copy-then-mutate', NM=3, NS=12, NH=4, Depth=4, SeedIds=[10, 11, 12, 13, 14, 15, 16], Kinds=['V', 'HE'], Types=['int'], Names=['a'],
+                MTypes=['poly', 'tet', 'hex'], MaxV=5, MaxE=7, Ops1=COPY, Ops2=MUT13, OpsN=MUT13B),
+            cfg(name='copy-then-mutate-wide', NM=3, NS=12, NH=4, Depth=3, SeedIds=[10, 11, 12, 13, 14, 15, 16], Kinds=['V', 'HE', 'M'], Types=['int', 'bool'], Names=['a'],
                 MTypes=['poly', 'tet', 'hex'], MaxV=5, MaxE=7, Ops1=COPY, Ops2=MUT13, OpsN=MUT13),
             cfg(name='chains', NM=3, NS=12, NH=4, Depth=4, SeedIds=[10, 11, 12, 13, 14, 15], Kinds=['V'], Types=['int'], Names=['a'],
-                MTypes=['poly', 'tet'], MaxV=5, MaxE=7, Ops1=COPY + ['mesh_new'], Ops2=COPY, OpsN=COPY + ['set_vertex', 'add_vertex', 'write', 'delete_vertex', 'clear', 'mesh_destroy']),
+                MTypes=['poly', 'tet'], MaxV=5, MaxE=7, Ops1=COPY + ['mesh_new'], Ops2=COPY, OpsN=COPY + MUT13B),
             cfg(name='persistent-positions', NM=3, NS=12, NH=4, Depth=4, SeedIds=[10, 11, 12, 15], Kinds=['V'], Types=['int'], Names=['a'],
-                MTypes=['poly'], MaxV=5, MaxE=7, Ops1=['persist_pos', 'clear'], Ops2=COPY + ['persist_pos'], OpsN=COPY + ['set_vertex', 'add_vertex', 'mesh_destroy', 'clear']),
+                MTypes=['poly'], MaxV=5, MaxE=7, Ops1=['persist_pos', 'clear', 'pos_handle'], Ops2=COPY + ['persist_pos', 'set_shared', 'set_name', 'pos_handle'],
+                OpsN=COPY + ['set_vertex', 'add_vertex', 'mesh_destroy', 'clear', 'persist_pos', 'write', 'h_drop']),
         ],
-        sim=dict(ops=COPY + COPY + MUT13 + ['mesh_new', 'h_move', 'clear_all_props'], SeedIds=[10, 11, 12, 13, 14, 15, 16], NM=3, NS=14, NH=4,
+        sim=dict(ops=COPY + COPY + MUT13 + ['mesh_new', 'h_move', 'clear_all_props', 'persist_pos'], SeedIds=[10, 11, 12, 13, 14, 15, 16], NM=3, NS=14, NH=4,
                  Kinds=['V', 'HE', 'M'], Types=['int', 'bool'], Names=['', 'a'], MTypes=['poly', 'tet', 'hex'], MaxV=6, MaxE=8),
     ),
 }
@@ -262,7 +271,7 @@ def replay_confirms(prop, props, variant, f, work, n):
 def run_check(prop, tier, seed, replay=None):
     t0 = time.time()
     conf = CHECKS[prop]
-    variant = 'san'
+    variant = os.environ.get('VERIF_VARIANT', 'san')   # 'san' is what the check claims; 'plain' only for the mutation self-test
     workers = int(os.environ.get('VERIF_TLC_WORKERS', str(min(vlib.NCPU, 16))))
     work = os.path.join(vlib.RUN, '%s-%s-%d' % (prop, tier, os.getpid()))
     shutil.rmtree(work, ignore_errors=True)
